@@ -121,7 +121,7 @@ func (i *fileItem) openOnDemand(fs afero.Fs) (afero.File, error) {
 		return i.file, nil
 	}
 
-	f, err := fs.Open(i.path)
+	f, err := openForRead(fs, i.path)
 	if err != nil {
 		return nil, err
 	}
